@@ -363,6 +363,72 @@ def replay_units_bounding(p):
     return bool(msgs), '; '.join(msgs[:2]) or 'unit-carrying bounding ranges agree with plain Hz'
 
 
+def job_index_bounds(T, Fc, asc, a, b):
+    """the bounding range given through the frame's own index->frequency conversion, (get_frequency(a), get_frequency(b)),
+    also with b at or past the upper band edge: channels [a, min(b, Fc)) receive exactly the unbounded signal, the rest nothing"""
+    recs = []
+    tag = f"C06:index-bounds:{(T, Fc, asc, a, b)}"
+    df, dt, fch1, pre = geom_syms()
+    D = sym_data(T, Fc)
+    P1, T1, F1 = uf1('PATH'), uf1('TP'), uf2('FP')
+    pl = dict(fn='index_bounds', T=T, Fc=Fc, asc=asc, a=a, b=b)
+
+    def run():
+        fr = make_frame(T, Fc, asc, df, dt, fch1)
+        fr.data = D.copy()
+        rng_ = (fr.get_frequency(a), fr.get_frequency(b))
+        sig = fr.add_signal(P1, T1, F1, None, bounding_f_range=rng_)
+        fu = make_frame(T, Fc, asc, df, dt, fch1)
+        fu.data = D.copy()
+        full = fu.add_signal(P1, T1, F1, None)
+        return fr.data, sig, full
+    with frame_patches():
+        leaves = core.explore(run, pre, cap=40)
+    conds = []
+    for li, leaf in enumerate(leaves):
+        conds.append(leaf.cond())
+        base = pre + leaf.pc + leaf.side
+        name = f"{tag}:leaf{li}"
+        if leaf.kind == 'exc':
+            r, m = core.check(base, timeout_ms=30000)
+            recs.append(q(name + ':noexc', r, detail=repr(leaf.value)))
+            if r == 'sat':
+                recs.append(cex('C06:index-bounds:raise', f'injection bounded by (get_frequency({a}), get_frequency({b})) raises {leaf.value!r}', pl, name=name + ':noexc'))
+            continue
+        data, sig, full = leaf.value
+        dis = []
+        for i in range(T):
+            for j in range(Fc):
+                want = lift(full[i, j]) if a <= j < min(b, Fc) else RV(0)
+                dis += [z3.simplify(lift(sig[i, j]) - want, som=True) != 0, z3.simplify(lift(data[i, j]) - lift(D[i, j]) - want, som=True) != 0]
+        dis = [c for c in dis if not z3.is_false(z3.simplify(c))]
+        r, m = core.check(base + ([z3.Or(*dis)] if dis else [z3.BoolVal(False)]), timeout_ms=60000)
+        recs.append(q(name, r, by_solver=len(dis)))
+        if r == 'sat':
+            recs.append(cex('C06:index-bounds', f'bounded by (get_frequency({a}), get_frequency({b})): channels [{a}, {min(b, Fc)}) do not get exactly the unbounded signal / others are touched', pl, name=name))
+    r, _ = core.check(pre + [z3.Not(z3.Or(*conds))], timeout_ms=30000)
+    recs.append(q(f"{tag}:split-complete", r, leaves=len(leaves)))
+    return recs
+
+
+def replay_index_bounds(p):
+    import setigen as stg
+    msgs = []
+    Fc = 16
+    for (a, b) in ((p['a'], Fc), (2, Fc + 3), (0, Fc), (3, 9)):
+        fr = stg.Frame(fchans=Fc, tchans=3, df=2.0, dt=4.0, fch1=4096.0, ascending=p['asc'], seed=1)
+        fu = stg.Frame(fchans=Fc, tchans=3, df=2.0, dt=4.0, fch1=4096.0, ascending=p['asc'], seed=1)
+        kw = dict(path=stg.constant_path(fr.get_frequency(Fc - 2), 0.05), t_profile=stg.constant_t_profile(2.0), f_profile=stg.gaussian_f_profile(9.0), bp_profile=stg.constant_bp_profile(1.0))
+        sig = fr.add_signal(bounding_f_range=(fr.get_frequency(a), fr.get_frequency(b)), **kw)
+        full = fu.add_signal(**kw)
+        want = np.zeros_like(full)
+        want[:, a:min(b, Fc)] = full[:, a:min(b, Fc)]
+        if not np.allclose(sig, want, rtol=1e-12, atol=0) or not np.allclose(fr.data, want, rtol=1e-12, atol=0):
+            cols = sorted(set(np.nonzero(~np.isclose(sig, want, rtol=1e-12, atol=0))[1].tolist()))
+            msgs.append(f"bounded by (get_frequency({a}), get_frequency({b})) on {Fc} channels: columns {cols} differ from the unbounded signal restricted to [{a}, {min(b, Fc)})")
+    return bool(msgs), '; '.join(msgs[:2]) or 'index-specified bounding ranges confine exactly'
+
+
 # ---------------------------------------------------------------- injections that fail
 FAULTS = ('path_fn', 'tprofile_fn', 'fprofile_fn', 'bp_fn', 'path_len', 'path_type', 'tprofile_len', 'bp_len')
 
@@ -575,7 +641,7 @@ def job_superpose(T, Fc, asc, smear, bound, tier):
     return recs
 
 
-REPLAYS = {'add_signal': inject.replay_add_signal, 'superpose': replay_superpose, 'int_data': replay_int_data, 'failed': replay_failed, 'units_bounding': replay_units_bounding, 'noise_twin': replay_noise_twin}
+REPLAYS = {'index_bounds': replay_index_bounds, 'add_signal': inject.replay_add_signal, 'superpose': replay_superpose, 'int_data': replay_int_data, 'failed': replay_failed, 'units_bounding': replay_units_bounding, 'noise_twin': replay_noise_twin}
 
 
 def main():
@@ -602,6 +668,8 @@ def main():
                 jobs.append(('job_int_data', (2, 3, asc, bound, smear)))
     for asc in (False, True):
         jobs.append(('job_noise_estimates_twin', (2, 3, asc)))
+        for (a_, b_) in ((1, 3), (0, 5), (1, 2)):
+            jobs.append(('job_index_bounds', (2, 3, asc, a_, b_)))
         for smear in (False, True):
             jobs.append(('job_units_bounding', (2, 3, asc, smear)))
     for smear in (False, True):
